@@ -187,6 +187,7 @@ type exh struct {
 	depthCap  int
 	callDepth int         // nesting of module-callee evaluation (global recursion guard)
 	assumeNil []ssa.Value // values assumed nil while a phi edge is evaluated
+	assumeBool map[ssa.Value]bool // boolean results of inner calls fixed by the use site of the outer call
 	memo      map[evalKey]*AV
 	reachMemo map[reachKey]map[*ssa.BasicBlock]bool
 	callMemo  map[callKey]*AV
@@ -454,7 +455,7 @@ func argForParam(cc *ssa.CallCommon, pi int) ssa.Value {
 
 // evalAt evaluates v under ctx and refines it with the facts of block b.
 func (e *exh) evalAt(v ssa.Value, ctx *Ctx, b *ssa.BasicBlock) *AV {
-	useMemo := len(e.assumeNil) == 0 && e.callDepth == 0 && e.memo != nil
+	useMemo := len(e.assumeNil) == 0 && len(e.assumeBool) == 0 && e.callDepth == 0 && e.memo != nil
 	k := evalKey{v, ctx, b}
 	if useMemo {
 		if r, ok := e.memo[k]; ok {
@@ -855,7 +856,7 @@ func typeMatches(x, t types.Type) bool {
 
 // callResult evaluates result #idx of a call.
 func (e *exh) callResult(c *ssa.Call, idx int, ctx *Ctx, at *ssa.BasicBlock, depth int, rt types.Type) *AV {
-	if e.callMemo != nil && len(e.assumeNil) == 0 {
+	if e.callMemo != nil && len(e.assumeNil) == 0 && len(e.assumeBool) == 0 {
 		k := callKey{c, idx, ctx, at}
 		if r, ok := e.callMemo[k]; ok {
 			return r.clone()
@@ -924,13 +925,23 @@ func (e *exh) callResult1(c *ssa.Call, idx int, ctx *Ctx, at *ssa.BasicBlock, de
 		return e.top(rt)
 	}
 	out := &AV{kind: kind}
-	if e.callDepth >= 3 {
+	// Functions outside package exec (constructors and parsers of package
+	// types, ast getters) are small and do not recurse into the executor:
+	// they are followed deeper, so that splitting one of them into helpers
+	// does not lose the set of types it can return.
+	leaf := true
+	for _, f := range callees {
+		if fnPkgPath(f) == pkgExec {
+			leaf = false
+		}
+	}
+	if (!leaf && e.callDepth >= 3) || e.callDepth >= 7 {
 		return e.top(rt)
 	}
 	e.callDepth++
 	defer func() { e.callDepth-- }()
 	for _, f := range callees {
-		if !inModule(f) || f.Blocks == nil || depth > 4 {
+		if !inModule(f) || f.Blocks == nil || (!leaf && depth > 4) {
 			out.join(e.top(rt))
 			continue
 		}
@@ -951,8 +962,56 @@ func (e *exh) callResult1(c *ssa.Call, idx int, ctx *Ctx, at *ssa.BasicBlock, de
 			if e.returnExcluded(c, r, facts) {
 				continue
 			}
-			rv := e.eval(r.Results[idx], sub, r.Instr.Block(), depth+2)
+			nd := depth + 2
+			if leaf {
+				nd = 0
+			}
+			// `return g(…)`: what the use site knows about the sibling results
+			// of this call (ok == true, err == nil) holds for g's results too
+			var setBool []ssa.Value
+			npush := 0
+			for i, sv := range r.Results {
+				ex := extractOf(c, i)
+				inner, isEx := stripConv(sv).(*ssa.Extract)
+				if ex == nil || !isEx || i == idx {
+					continue
+				}
+				switch {
+				case e.kindOf(sv.Type()) == "bool":
+					truth, known := e.assumeBool[stripConv(ex)]
+					for _, f := range facts {
+						if sameValue(f.Cond, ex) {
+							truth, known = f.Truth, true
+						}
+					}
+					if known {
+						if e.assumeBool == nil {
+							e.assumeBool = map[ssa.Value]bool{}
+						}
+						if _, had := e.assumeBool[inner]; !had {
+							e.assumeBool[inner] = truth
+							setBool = append(setBool, inner)
+						}
+					}
+				case isErrorType(sv.Type()):
+					isNil, _ := nilFact(facts, ex)
+					for _, an := range e.assumeNil {
+						if an == stripConv(ex) {
+							isNil = true
+						}
+					}
+					if isNil {
+						e.assumeNil = append(e.assumeNil, inner)
+						npush++
+					}
+				}
+			}
+			rv := e.eval(r.Results[idx], sub, r.Instr.Block(), nd)
 			rv = e.refine(rv, r.Results[idx], factsAt(r.Instr.Block()), sub, r.Instr.Block())
+			for _, b := range setBool {
+				delete(e.assumeBool, b)
+			}
+			e.assumeNil = e.assumeNil[:len(e.assumeNil)-npush]
 			out.join(rv)
 		}
 	}
@@ -1026,6 +1085,9 @@ func (e *exh) returnExcluded(c *ssa.Call, r RetSite, facts []Fact) bool {
 				if sameValue(f.Cond, ex) && f.Truth != val {
 					return true
 				}
+			}
+			if tv, ok := e.assumeBool[stripConv(ex)]; ok && tv != val {
+				return true
 			}
 		}
 	}
@@ -1271,7 +1333,7 @@ func (e *exh) sameNode(a, b ssa.Value) bool {
 // the abstract value (joined over all paths) of one of its subjects.
 func (e *exh) feasible(b *ssa.BasicBlock, ctx *Ctx) bool {
 	fn := b.Parent()
-	useMemo := len(e.assumeNil) == 0
+	useMemo := len(e.assumeNil) == 0 && len(e.assumeBool) == 0
 	k := reachKey{fn, ctx}
 	if useMemo {
 		if r, ok := e.reachMemo[k]; ok {
@@ -1397,8 +1459,37 @@ func factSubjects(f Fact) []ssa.Value {
 }
 
 // contexts enumerates the call contexts of fn, depth levels up.
-func (e *exh) contexts(fn *ssa.Function, depth int) []*Ctx {
-	key := fmt.Sprintf("%p/%d", fn, depth)
+func (e *exh) contexts(fn *ssa.Function, depth int) []*Ctx { return e.contextsH(fn, depth, 0) }
+
+// passThrough: every argument of the call that the interpreter tracks (nodes,
+// function values, enum constants, booleans) is a parameter of the caller or a
+// constant: the caller adds no information of its own, so it does not use up
+// a level of call-context depth (at most two such hops per chain).
+func (e *exh) passThrough(site ssa.CallInstruction) bool {
+	tracked := 0
+	for _, a := range site.Common().Args {
+		k := e.kindOf(a.Type())
+		if k == "" || k == "other" {
+			continue
+		}
+		switch stripConv(a).(type) {
+		case *ssa.Parameter, *ssa.Const:
+			tracked++
+		default:
+			if isContextType(a.Type()) {
+				continue
+			}
+			if _, isRecv := a.Type().Underlying().(*types.Pointer); isRecv && namedOf(a.Type()) == e.p.A.Executor {
+				continue
+			}
+			return false
+		}
+	}
+	return tracked > 0
+}
+
+func (e *exh) contextsH(fn *ssa.Function, depth, hops int) []*Ctx {
+	key := fmt.Sprintf("%p/%d/%d", fn, depth, hops)
 	if c, ok := e.ctxMemo[key]; ok {
 		return c
 	}
@@ -1433,11 +1524,13 @@ func (e *exh) contexts(fn *ssa.Function, depth int) []*Ctx {
 	for _, ed := range edges {
 		caller := ed.Caller.Func
 		site := ed.Site
-		nd := depth - 1
+		nd, nh := depth-1, hops
 		if caller.Synthetic != "" {
 			nd = depth // bound-method wrappers and thunks do not count as a level
+		} else if hops < 2 && e.passThrough(site) {
+			nd, nh = depth, hops+1
 		}
-		for _, cc := range e.contexts(caller, nd) {
+		for _, cc := range e.contextsH(caller, nd, nh) {
 			if !e.feasible(site.Block(), cc) {
 				continue
 			}
